@@ -160,20 +160,6 @@ func c16Init(w *rnsWorld, acc chain.Account) c16Out {
 			return c16Out{sig: "C16/live-name-registered-by-non-owner", msg: fmt.Sprintf("%s (live until %d, owner %s) was taken or rewritten by the free initial registration of %s at height %d: now held by %s until %d", key, b.Expires, short(b.Value), short(acc.Bech), h, short(after[key].Value), after[key].Expires)}
 		}
 	}
-	if res.OK() {
-		got := 0
-		for key, a := range after {
-			if a.Value == acc.Bech && before[key] != a {
-				got++
-				if a.Expires <= h {
-					return c16Out{sig: "C16/init-name-not-live", msg: fmt.Sprintf("the initial name %s expires at %d, height is %d", key, a.Expires, h)}
-				}
-			}
-		}
-		if got != 1 {
-			return c16Out{sig: "C16/init-does-not-resolve", msg: fmt.Sprintf("a successful initial registration left %d new names held by the sender", got)}
-		}
-	}
 	return c16Out{ok: res.OK()}
 }
 
